@@ -14,7 +14,7 @@
    the checker above (C03_bisim_check_sound). *)
 From Coq Require Import List NArith Bool.
 From RPFT Require Import Base.Sexp Base.SexpEq Base.Result Gen.Tables Flow.Lts Flow.Flow Flow.FlowFacts.
-From RPFT Require Comp.Blocks Comp.BlocksFacts Comp.Desugar Comp.DesugarFacts Comp.DesugarWitness Cell.Cell Tmpl.MiniJinja Tmpl.RowLoop Tmpl.TmplFacts Tmpl.RowLoopFacts Base.ODict Base.PyStr Index.Args Comp.InsertArgs Comp.InsertArgsFacts.
+From RPFT Require Comp.Blocks Comp.BlocksFacts Comp.Desugar Comp.DesugarFacts Comp.DesugarWitness Cell.Cell Tmpl.MiniJinja Tmpl.RowLoop Tmpl.TmplFacts Tmpl.RowLoopFacts Base.ODict Base.PyStr Index.Args Tmpl.Insert Comp.InsertArgs Comp.InsertArgsFacts.
 Import ListNotations.
 
 Theorem C03_bisim_check_sound : forall f g,
@@ -524,6 +524,13 @@ Theorem C03_typed_binding_extends_string_binding :
   = InsertArgsFacts.res_value inj rows_value (Args.map_template_arguments_to_context sheets defs args c).
 Proof. exact (@InsertArgsFacts.typed_binding_extends_string_binding). Qed.
 Print Assumptions C03_typed_binding_extends_string_binding.
+
+(* ... and the context C16's insert model (Tmpl/Insert.v: one declared argument, no default, a string) builds is this binding *)
+Theorem C03_typed_binding_agrees_with_insert_model : forall (t : Insert.template) (a : Sexp.str) c,
+  Insert.block_context t a = Ok c ->
+  InsertArgs.bind_args [] (InsertArgsFacts.defs_of_template t) [MiniJinja.VStr a] [] = Ok c.
+Proof. exact InsertArgsFacts.block_context_is_typed_binding. Qed.
+Print Assumptions C03_typed_binding_agrees_with_insert_model.
 
 (* nothing of the inserting flow reaches the inserted template except through the value of the argument cell *)
 Theorem C03_inserted_template_sees_inserting_flow_only_through_argument_cell :
